@@ -1166,6 +1166,9 @@ class Ev:
                     self.mismatches.append((self.where(n), "argument of %s() has degree %s%+s*l, expected a "
                                                            "dimensionless quantity" % (name, d[0], d[1])))
             return Poly.atom(("fn", name, tuple(v.canon() for v in vals)))
+        if callee.get("kind") == "DeclRefExpr" and callee.get("referencedDecl", {}).get("kind") in ("VarDecl", "ParmVarDecl"):
+            # call through a function pointer: an opaque function of its (scalar) arguments
+            return Poly.atom(("fn", "<fptr:%s>" % name, tuple(self.expr(a, env).canon() for a in args)))
         if name in self.tu.funcs:
             vals = []
             for a in args:
@@ -1779,7 +1782,11 @@ class PyPoly:
         self.ev.degs = {}
         self.ev.l_role = "l"
         self.ev.factor_sums = factor_sums
+        self.ev.exact_roots = False
         self._depth = 0
+        self.module_funcs = {}   # name -> FunctionDef: module-level functions whose return expression is inlined
+        self.elementwise = {"gamma", "exp", "erf", "erfc", "log", "abs", "cos", "sin", "tanh", "cosh", "sinh", "arctan"}
+        self.matrix_axes = False  # X[:, None] / X[None, :] read as the column / row broadcast of vector X
 
     def local_def(self, name):
         if self.fn is None:
@@ -1838,6 +1845,27 @@ class PyPoly:
             if name == "log" and len(e.args) == 1:
                 v = self.poly(e.args[0])
                 return log_of_power(v) or Poly.atom(("fn", "log", (v.canon(),)))
+            if name in self.elementwise:
+                return Poly.atom(("fn", name, tuple(self.poly(a).canon() for a in e.args)))
+            if isinstance(e.func, ast.Name) and e.func.id in self.module_funcs and not e.keywords and self._depth < 6:
+                callee = self.module_funcs[e.func.id]
+                params = [a.arg for a in callee.args.args]
+                rets = [x for x in pf.walk_no_nested(callee) if isinstance(x, ast.Return)]
+                if len(params) == len(e.args) and len(rets) == 1 and rets[0].value is not None:
+                    sub = PyPoly(callee, dict(zip(params, [self.poly(a) for a in e.args])), self.ev.factor_sums)
+                    sub.module_funcs, sub.elementwise, sub.matrix_axes = self.module_funcs, self.elementwise, self.matrix_axes
+                    sub._depth = self._depth + 1
+                    return sub.poly(rets[0].value)
+        if isinstance(e, ast.Subscript) and self.matrix_axes:
+            idx = e.slice.elts if isinstance(e.slice, ast.Tuple) else [e.slice]
+            full = [isinstance(x, ast.Slice) and x.lower is None and x.upper is None and x.step is None for x in idx]
+            none = [isinstance(x, ast.Constant) and x.value is None for x in idx]
+            if len(idx) == 2 and ((full[0] and none[1]) or (none[0] and full[1])):
+                base = self.poly(e.value)
+                if base.single() and next(iter(base.t.values())) == 1 and len(next(iter(base.t))) == 1 \
+                        and next(iter(base.t))[0][0][0] == "sym" and next(iter(base.t))[0][1] == 1:
+                    nm = next(iter(base.t))[0][0][1]
+                    return Poly.atom(("sym", ("COL:" if full[0] else "ROW:") + nm))
         raise AnalysisError("python expression %s is outside the arithmetic fragment" % pf.src(e)[:80])
 
 
@@ -2309,3 +2337,145 @@ class CoordUse:
                     continue
             out.append({"node": n, "role": cv[0], "comp": cv[1], "kind": "other", "other": par})
         return out
+
+
+# ======================================================================================
+# 4. substitution, differentiation and rational-function comparison on the normal form
+# ======================================================================================
+def map_atoms(p, f, ev=None):
+    """rebuild polynomial p replacing atoms: f(atom) -> Poly | None (None = keep, after mapping nested parts)"""
+    ev = ev or _plain_ev()
+    out = Poly()
+    for m, c in p.t.items():
+        term = Poly.const(c)
+        for a, e in m:
+            r = f(a)
+            if r is None:
+                r = Poly.atom(_map_nested(a, f, ev))
+            if e == 1:
+                term = term.mul_raw(r) if (term.single() or r.single()) else ev.mul(term, r)
+            else:
+                term = term.mul_raw(ev.powc(r, e))
+        out = out + term
+    return out
+
+
+def _map_nested(a, f, ev):
+    k = a[0]
+    if k == "sum":
+        inner = map_atoms(Poly(dict(a[1])), f, ev)
+        return ("sum", inner.canon())
+    if k == "pow":
+        return ("pow", ev.atomise(map_atoms(Poly(dict(a[1])), f, ev)).canon(), map_atoms(Poly(dict(a[2])), f, ev).canon())
+    if k == "fn":
+        return ("fn", a[1], tuple(map_atoms(Poly(dict(x)), f, ev).canon() for x in a[2]))
+    if k == "elem":
+        return ("elem", a[1], map_atoms(Poly(dict(a[2])), f, ev).canon())
+    if k == "guard":
+        return ("guard", map_atoms(Poly(dict(a[1])), f, ev).canon())
+    return a
+
+
+def _plain_ev():
+    ev = Ev.__new__(Ev)
+    ev.expand = False
+    ev.exact_roots = False
+    ev.factor_sums = False
+    ev.mismatches, ev.degs, ev.l_role = [], {}, "l"
+    return ev
+
+
+def depends_on(p, var):
+    """does atom `var` occur in p, also inside nested sums / powers / function arguments / element indices"""
+    def in_atom(a):
+        if a == var:
+            return True
+        k = a[0]
+        if k in ("sum", "guard"):
+            return depends_on(Poly(dict(a[1])), var)
+        if k == "pow":
+            return depends_on(Poly(dict(a[1])), var) or depends_on(Poly(dict(a[2])), var)
+        if k == "fn":
+            return any(depends_on(Poly(dict(x)), var) for x in a[2])
+        if k == "elem":
+            return depends_on(Poly(dict(a[2])), var)
+        return False
+    return any(in_atom(a) for a in p.atoms())
+
+
+def dlog_mono(m, var, ev):
+    """d/dvar log(prod atom^e) = sum e * atom'/atom as a polynomial in atoms (negative powers allowed)"""
+    out = Poly()
+    for a, e in m:
+        out = out + dlog_atom(a, var, ev).scale(e)
+    return out
+
+
+def dlog_atom(a, var, ev):
+    """atom'/atom"""
+    if a == var:
+        return Poly({((a, Fr(-1)),): Fr(1)})
+    k = a[0]
+    if k in ("sym", "num", "elem"):
+        return Poly()
+    if k == "sum":
+        d = d_poly(Poly(dict(a[1])), var, ev)
+        return d.mul_raw(Poly({((a, Fr(-1)),): Fr(1)})) if d.t else Poly()
+    if k == "pow":
+        base, expo = Poly(dict(a[1])), Poly(dict(a[2]))
+        if depends_on(expo, var):
+            raise AnalysisError("derivative of a power whose exponent depends on the variable")
+        db = d_poly(base, var, ev)
+        if not db.t:
+            return Poly()
+        return expo.mul_raw(db.mul_raw(ev.inv(base)))
+    if k == "fn":
+        if any(depends_on(Poly(dict(x)), var) for x in a[2]):
+            raise AnalysisError("derivative through %s(...) is not supported" % a[1])
+        return Poly()
+    raise AnalysisError("derivative of atom kind %s" % k)
+
+
+def d_atom(a, var, ev):
+    return Poly.atom(a).mul_raw(dlog_atom(a, var, ev))
+
+
+def d_poly(p, var, ev):
+    """term-by-term derivative of a polynomial in atoms with respect to one atom"""
+    out = Poly()
+    for m, c in p.t.items():
+        dl = dlog_mono(m, var, ev)
+        if dl.t:
+            out = out + Poly({m: c}).mul_raw(dl)
+    return out
+
+
+def ratfun(p):
+    """p (atoms: symbols and nested sums, integer exponents) -> (numerator, denominator), fully expanded polynomials
+    in the symbols; raises AnalysisError outside that fragment"""
+    num, den = Poly(), Poly.const(1)
+    for m, c in p.t.items():
+        tn, td = Poly.const(c), Poly.const(1)
+        for a, e in m:
+            if e.denominator != 1:
+                raise AnalysisError("fractional power of %s in a rational function" % atom_text(a))
+            if a[0] == "sum":
+                an, ad = ratfun(Poly(dict(a[1])))
+            elif a[0] in ("sym", "elem"):
+                an, ad = Poly.atom(a), Poly.const(1)
+            else:
+                raise AnalysisError("%s in a rational function" % atom_text(a))
+            k = int(e)
+            if k < 0:
+                an, ad, k = ad, an, -k
+            for _ in range(k):
+                tn, td = tn.mul_raw(an), td.mul_raw(ad)
+        num = num.mul_raw(td) + tn.mul_raw(den)
+        den = den.mul_raw(td)
+    return num, den
+
+
+def ratfun_equal(p, q):
+    pn, pd = ratfun(p)
+    qn, qd = ratfun(q)
+    return pn.mul_raw(qd) == qn.mul_raw(pd)
